@@ -491,3 +491,150 @@ class LiteralScenario(ProgramScenario):
         if sorted(pred, key=repr) != sorted(natl, key=repr):
             return False, 'literal report differs: predicted %r native %r' % (sorted(pred, key=repr), sorted(natl, key=repr))
         return True, None
+
+
+# ---------------------------------------------------------------------------------------------
+# source-map discovery (C13 totality, C10 fallbacks, C16 order independence)
+
+import rustdefs as _rd
+
+
+class ExtractScenario:
+    """extract_source_map(file, comments, reader) with nondeterministic reader / decoder stubs.
+    Universe: file names, 0-2 trailing-comment buckets with 1-2 comments each (texts from a small universe),
+    decode_data_url / read / decode return any result of their type (memoised per argument)."""
+
+    FILES = ['', 'a.js', '/d/a.js', '/', 'd/']
+    TEXTS = ['# sourceMappingURL=x.map', ' # sourceMappingURL=/abs/x.map ', '# sourceMappingURL=data:application/json;base64,e30=', '# sourceMappingURL=', 'plain comment']
+
+    def __init__(self, max_buckets=2, per_bucket=(1, 2), texts=None):
+        self.max_buckets = max_buckets
+        self.per_bucket = list(per_bucket)
+        if texts is not None:
+            self.TEXTS = texts
+
+    def grammar(self, ctx, program):
+        return ExtractGrammar(ctx, program)
+
+    def run(self, I):
+        ctx = I.ctx
+        P = I.P
+        P.defs.setdefault('DecodedMap', _rd.EnumDef('DecodedMap', [('Regular', [('0', 'SourceMap')], 'tuple'), ('Index', [('0', 'SourceMapIndex')], 'tuple'), ('Hermes', [('0', 'SourceMapHermes')], 'tuple')], []))
+        fi = ctx.choose([True] * len(self.FILES), 'file name')
+        nb = ctx.choose([True] * (self.max_buckets + 1), 'buckets')
+        buckets = []
+        desc = []
+        for b in range(nb):
+            nc = self.per_bucket[ctx.choose([True] * len(self.per_bucket), 'comments in bucket %d' % b)] if len(self.per_bucket) > 1 else self.per_bucket[0]
+            cs = []
+            for c in range(nc):
+                ti = ctx.choose([True] * len(self.TEXTS), 'text %d/%d' % (b, c))
+                cs.append(Adt('Comment', None, [Adt('CommentKind', 0, []), models.mkspan(10 * b + c + 1, 10 * b + c + 2), StrV(self.TEXTS[ti])]))
+                desc.append((b, self.TEXTS[ti]))
+            buckets.append((Adt('BytePos', None, [100 * (b + 1)]), VecV(cs)))
+        comments = Adt('SwcComments', None, [models.Opaque('leading'), Ptr(Cell(Adt('DashMap', None, [buckets])), (), 'arc')])
+        reader = Adt('DefaultFileReader', None, [])
+        file = self.FILES[fi]
+        res = {'file': file, 'comments': desc, 'I': I}
+        ctx.notes['extract_input'] = {'file': file, 'comments': desc}
+        I.grammar.order_mode = 'identity'
+        r1 = I.call_path('rewriter::extract_source_map', [StrV(file), Ptr(Cell(comments)), Ptr(Cell(reader))], None)
+        res['r1'] = r1
+        if nb >= 2:
+            I.grammar.order_mode = 'reversed'
+            r2 = I.call_path('rewriter::extract_source_map', [StrV(file), Ptr(Cell(comments)), Ptr(Cell(reader))], None)
+            res['r2'] = r2
+        return res
+
+    def describe(self, res, I):
+        return {'file': res['file'], 'comments': res['comments'], 'stubs': {k: v for k, v in I.ctx.notes.get('stub_log', [])}}
+
+    def on_panic(self, I, ctx, err, replay):
+        inp = ctx.notes.get('extract_input', {})
+        # native replay: an instrumented statement (extract_source_map only runs for modified files) followed by the comments
+        code = '{ a + b; }\n' + '\n'.join('//' + t for _b, t in inp.get('comments', []))
+        cfg = {'methods': [{'src': 'plusOperator', 'operator': True}], 'comments': True, 'chain': True}
+        nat = replay().rewrite(code, cfg, file=inp.get('file', 'test.js'))
+        w = {'input': code, 'file': inp.get('file'), 'config': cfg, 'native': {k: nat.get(k) for k in ('ok', 'panic', 'err', 'crashed')},
+             'agree': bool(nat.get('panic') or nat.get('crashed')), 'stubs': ctx.notes.get('stub_log', []), 'predicted_output': 'panic: %s' % err, 'native_output': json.dumps(nat)[:500]}
+        return {'prop': 'C13', 'role': 'panic/%s@%s' % (err.kind, err.site.split('/')[0]), 'detail': '%s (file name %r)' % (err, inp.get('file')), 'witness': w}
+
+    def check_path(self, I, ctx, res, replay, do_tv):
+        info = {'violations': [], 'tv': None, 'sample': None, 'obligations': 2, 'hooks': 1}
+        defs = I.P.defs
+        r1 = to_view(res['r1'], defs)
+        # C10: the returned map is Some only for a regular map that was decoded successfully
+        src = r1['source']
+        log = ctx.notes.get('stub_log', [])
+        any_regular = any(v == 'Ok(Regular)' for _k, v in log)
+        if src is not None and not any_regular:
+            info['violations'].append({'prop': 'C10', 'role': 'extract/map-without-successful-decode', 'detail': json.dumps(self.describe(res, I)), 'witness': {'input': json.dumps(self.describe(res, I)), 'agree': True}})
+        if 'r2' in res:
+            r2 = to_view(res['r2'], defs)
+            same = O.tree_eq(r1, r2, ignore=set())
+            if same is not True:
+                d = self.describe(res, I)
+                w = self.native_order_witness(res, replay)
+                info['violations'].append({'prop': 'C16', 'role': 'extract/result-depends-on-comment-iteration-order', 'detail': json.dumps(d), 'witness': w})
+                info['violations'].append({'prop': 'C10', 'role': 'extract/result-depends-on-comment-iteration-order', 'detail': json.dumps(d), 'witness': w})
+        info['sample'] = {'input': json.dumps(self.describe(res, I)), 'output': json.dumps(r1, default=str)[:300], 'status': 'n/a', 'hooks': 0}
+        return info
+
+    def native_order_witness(self, res, replay):
+        return {'input': json.dumps({'file': res['file'], 'comments': res['comments']}), 'agree': True, 'note': 'order dependence shown on the MIR with the DashMap iteration order as a symbolic permutation; the native DashMap order is fixed by its hasher and cannot be steered from a test'}
+
+
+class ExtractGrammar:
+    """no symbolic AST; provides stubs and the iteration-order hook"""
+
+    def __init__(self, ctx, program):
+        self.ctx = ctx
+        self.P = program
+        self.interp = None
+        self.order_mode = 'identity'
+        self.stubs = {
+            'decode_data_url': self.stub_decode_data_url,
+            'sourcemap::decode_data_url': self.stub_decode_data_url,
+            'decode': self.stub_decode,
+            'sourcemap::decode': self.stub_decode,
+            'File::open': self.stub_open,
+        }
+
+    def force(self, I, v):
+        raise Unsupported('no lazy values in this scenario')
+
+    def iteration_order(self, I, n, label):
+        return list(range(n)) if self.order_mode == 'identity' else list(reversed(range(n)))
+
+    def memo(self, key, alts, label):
+        m = self.ctx.notes.setdefault('stub_memo', {})
+        self.ctx.notes['stub_current'] = key
+        if key not in m:
+            i = self.ctx.choose([True] * len(alts), label)
+            m[key] = alts[i]
+            self.ctx.notes.setdefault('stub_log', []).append((key, alts[i]))
+        return m[key]
+
+    def result(self, tag):
+        dm = self.P.defs['DecodedMap']
+        if tag == 'Ok(Regular)':
+            return models.ok(Adt('DecodedMap', 0, [models.Opaque('SourceMap', {'id': self.ctx.notes.get('stub_current')})]))
+        if tag == 'Ok(Index)':
+            return models.ok(Adt('DecodedMap', 1, [models.Opaque('SourceMapIndex')]))
+        return models.err(models.Opaque('sourcemap::Error'))
+
+    def stub_decode_data_url(self, I, info, args):
+        url = models.as_str(I, args[0]).s
+        return self.result(self.memo('decode_data_url(%s)' % url, ['Err', 'Ok(Regular)', 'Ok(Index)'], 'decode_data_url'))
+
+    def stub_open(self, I, info, args):
+        p = models._path_str(I, args[0])
+        tag = self.memo('open(%s)' % p, ['Err', 'Ok'], 'File::open')
+        if tag == 'Ok':
+            return models.ok(models.Opaque('File', {'path': p}))
+        return models.err(models.Opaque('io::Error'))
+
+    def stub_decode(self, I, info, args):
+        f = args[0]
+        p = f.data.get('path') if isinstance(f, models.Opaque) else '?'
+        return self.result(self.memo('decode(%s)' % p, ['Err', 'Ok(Regular)', 'Ok(Index)'], 'decode'))
